@@ -25,6 +25,11 @@ EXPLANATION = (
     "whose instants are solver-chosen non-decreasing values; every step is compared with the same call on freshly "
     "built objects at the same instant."
 )
+TECHNIQUE = (
+    "symbolic execution with z3 (CrossHair) over choice variables (configurations, operation codes, schedule bits): the solver "
+    "enumerates the bounded structure space and certifies that no choice is left; the real liquid2 code then runs natively on "
+    "each chosen structure (nothing symbolic reaches it); counterexamples are replayed natively"
+)
 OUTSIDE = [
     "thread-level concurrency; real clocks and time zones; strftime on instants outside the 3 stub instants",
     "histories longer than 2 prior steps + 1 observation; more than the 7 templates listed",
